@@ -89,13 +89,13 @@ def gen(rng, k, flavour="mix"):
             add(h, "tcp_read_all %d %d %d" % (s, r.choice([100, 1475, 4096, 65536]), rh))
             if r.random() < 0.5:
                 wh = nh()
-                add(rh, "tcp_write_all %d %d %d %d %d" % (s, r.randrange(1000), r.choice([1, 5000, 40000]) if not (small_mtu or flavour == 'mtu') else r.choice([1, 300]), 65536, wh))
+                add(rh, "tcp_write_all %d %d %d %d %d" % (s, r.randrange(1000), r.choice([1, 5000, 40000]) if not (small_mtu or flavour == 'mtu') else (r.choice([1, 300]) if not small_mtu else r.choice([1, 40])), 65536, wh))
                 add(wh, "tcp_close %d" % s)
             else:
                 add(rh, "tcp_close %d" % s)
         elif mode < 0.8:
             wh = nh()
-            add(h, "tcp_write_all %d %d %d %d %d" % (s, r.randrange(1000), (r.choice([1, 1475, 1476, 30000, 60000]) if not (small_mtu or flavour == 'mtu') else r.choice([1, 50, 300, 3000])), r.choice([100, 65536]), wh))
+            add(h, "tcp_write_all %d %d %d %d %d" % (s, r.randrange(1000), (r.choice([1, 1475, 1476, 30000, 60000]) if not (small_mtu or flavour == 'mtu') else (r.choice([1, 50, 300, 3000]) if not small_mtu else r.choice([1, 10, 60]))), r.choice([100, 65536]), wh))
             add(wh, "tcp_close %d" % s)
         else:
             # hand-chained reads with odd buffer layouts, wait+read_some
@@ -139,7 +139,7 @@ def gen(rng, k, flavour="mix"):
             wh = nh()
             total = r.choice([1, 1474, 1475, 1476, 2950, 4425, 10000, 30000]) if r.random() < 0.9 else r.choice([100000, 300000])
             if small_mtu or flavour == 'mtu':
-                total = min(total, r.choice([1, 50, 300, 3000]))
+                total = min(total, r.choice([1, 50, 300, 3000]) if not small_mtu else r.choice([1, 10, 60]))
             add(ch, "tcp_write_all %d %d %d %d %d" % (s, r.randrange(1000), total, r.choice([500, 1475, 4000, 65536, 1 << 20]), wh))
             rh = nh()
             if r.random() < 0.5:
